@@ -196,3 +196,30 @@ package dhcpd
 //@   callsite-if-present (*github.com/AdguardTeam/AdGuardHome/internal/dhcpd.v4Server).commitLease(l, h) requires in-table: (l.IP in s.ipIndex) && s.ipIndex[l.IP] == l
 //@   callsite fieldcall:github.com/AdguardTeam/AdGuardHome/internal/dhcpd.V4ServerConf.notify(flags) requires store-after-the-change: flags != LeaseChangedDBStore || deferred()
 //@   modifies *
+
+// The lease database lists exactly the leases in memory, each once, in table order (v4 then v6) before the sort by host
+// name that writeDB applies: what is handed to writeDB is one record per lease with that lease's address, host name,
+// hardware address text and static flag.
+// (interface method: the table slice of the server behind the interface; an accessor without effect)
+//@ func (s DHCPServer) getLeasesRef() (r0 []*dhcpsvc.Lease)
+//@   pure-function
+//@   modifies nothing
+//@ func fromLease(l *dhcpsvc.Lease) (dl *dbLease)
+//@   property C10
+//@   ensures dl != nil && fresh(dl) && dl.IP == l.IP && dl.Hostname == l.Hostname && dl.IsStatic == l.IsStatic && dl.HWAddr == l.HWAddr.String()
+//@   ensures static-no-expiry: l.IsStatic ==> dl.Expiry == ""
+//@   modifies nothing
+//@ define recordOf(dl *dbLease, l *dhcpsvc.Lease) bool = dl != nil && dl.IP == l.IP && dl.Hostname == l.Hostname && dl.IsStatic == l.IsStatic
+//@ func (s *server) dbStore() (err error)
+//@   property C10
+//@   requires s.srv4 != nil && s.conf != nil
+//@   requires forall k int :: {mark(k)} 0 <= k && k < len(s.srv4.getLeasesRef()) ==> s.srv4.getLeasesRef()[k] != nil
+//@   requires s.srv6 != nil ==> (forall k int :: {mark(k)} 0 <= k && k < len(s.srv6.getLeasesRef()) ==> s.srv6.getLeasesRef()[k] != nil)
+//@   callsite github.com/AdguardTeam/AdGuardHome/internal/dhcpd.writeDB(path, leases) requires one-record-per-lease: len(leases) == len(old(s.srv4.getLeasesRef())) + (old(s.srv6) != nil ? len(old(s.srv6.getLeasesRef())) : 0) && (forall k int :: {mark(k)} 0 <= k && k < len(old(s.srv4.getLeasesRef())) ==> recordOf(leases[k], old(s.srv4.getLeasesRef())[k]))
+//@   modifies *
+//@   loop 1 invariant len(leases) == #i
+//@   loop 1 invariant fresh(arrayOf(leases))
+//@   loop 1 invariant forall k int :: {mark(k)} 0 <= k && k < #i ==> recordOf(leases[k], old(s.srv4.getLeasesRef())[k])
+//@   loop 2 invariant len(leases) == len(old(s.srv4.getLeasesRef())) + #i
+//@   loop 2 invariant fresh(arrayOf(leases))
+//@   loop 2 invariant forall k int :: {mark(k)} 0 <= k && k < len(old(s.srv4.getLeasesRef())) ==> recordOf(leases[k], old(s.srv4.getLeasesRef())[k])
